@@ -201,6 +201,9 @@ SCALED_CORE_PAIRS = [
     "SI<cnl::elastic_integer<12, unsigned>,-4,2>, SI<cnl::elastic_integer<10>,-6,2>",
     "cnl::elastic_scaled_integer<8, cnl::power<-2>, unsigned>, cnl::elastic_scaled_integer<8, cnl::power<-2>>",
     "SI<cnl::elastic_integer<30>,-10,2>, SI<cnl::elastic_integer<30, unsigned>,-10,2>",
+    # exponent differences equal to / one off the digit count of the representation (conversions shift every digit out)
+    "SI<i8,-7,2>, i32", "SI<i16,-15,2>, i32", "SI<i8,0,2>, SI<i8,7,2>", "SI<i16,-15,2>, SI<i16,0,2>",
+    "SI<i8,-8,2>, i16", "SI<u8,-8,2>, u8", "SI<i8,-6,2>, i8", "SI<u16,-16,2>, SI<u16,1,2>",
 ]
 SCALED_CORE_SINGLES = ["SI<i32,-8,2>", "SI<i64,-70,2>", "SI<u16,3,2>", "SI<i8,-7,2>", "SI<u64,-32,2>", "SI<i64,40,2>",
                        "SI<cnl::elastic_integer<24>,-12,2>", "SI<cnl::elastic_integer<53>,-60,2>", "i32", "u64"]
